@@ -275,7 +275,28 @@ type SearchVectorVamanaOptions struct {
 	Weight     *float32  `json:"weight"`
 }
 
+// A MessagePack body can carry numbers that are not finite. In a query vector
+// or a weight they make every distance and score not a number, which cannot be
+// ranked and cannot be written into an answer.
+func checkFiniteQuery(vector []float32, weight *float32) error {
+	for i, f := range vector {
+		if f64 := float64(f); math.IsNaN(f64) || math.IsInf(f64, 0) {
+			return fmt.Errorf("query vector element %d is not a finite number", i)
+		}
+	}
+	if weight != nil {
+		if w := float64(*weight); math.IsNaN(w) || math.IsInf(w, 0) {
+			return fmt.Errorf("weight is not a finite number")
+		}
+	}
+	return nil
+}
+
 func (o SearchVectorVamanaOptions) Validate() error {
+	// ---------------------------
+	if err := checkFiniteQuery(o.Vector, o.Weight); err != nil {
+		return err
+	}
 	// ---------------------------
 	if len(o.Vector) < 1 || len(o.Vector) > 4096 {
 		return fmt.Errorf("query vector length must be between 1 and 4096, got %d", len(o.Vector))
@@ -316,6 +337,10 @@ type SearchVectorFlatOptions struct {
 
 func (o SearchVectorFlatOptions) Validate() error {
 	// ---------------------------
+	if err := checkFiniteQuery(o.Vector, o.Weight); err != nil {
+		return err
+	}
+	// ---------------------------
 	if len(o.Vector) < 1 || len(o.Vector) > 4096 {
 		return fmt.Errorf("query vector length must be between 1 and 4096, got %d", len(o.Vector))
 	}
@@ -346,6 +371,10 @@ type SearchTextOptions struct {
 }
 
 func (o SearchTextOptions) Validate() error {
+	// ---------------------------
+	if err := checkFiniteQuery(nil, o.Weight); err != nil {
+		return err
+	}
 	// ---------------------------
 	if len(o.Value) == 0 {
 		return fmt.Errorf("text query value cannot be empty")
